@@ -33,7 +33,7 @@ TECHNIQUE = "runtime monitoring: history checker over recorded read/write cycles
 
 OPTSETS = [{}, {"version": 1.2}, {"version": 2, "wrap": True}, {"fmt": "%.2f"}, {"wrap": True, "data_width": 40, "fmt": "%.3f"},
            {"mnemonics_header": True, "data_section_header": "~A"}, {"version": 1.2, "wrap": False, "len_numeric_field": -1}]
-MUTATIONS = ["none", "dup_curve", "blank_curve", "dup_param", "unit_point1in", "empty_values", "long_fields", "blank_param", "empty_step", "dup_null", "vers_1.0", "vers_2.1", "vers_3.0", "vers_1.2", "wrap_Yes", "wrap_yes", "wrap_No", "numeric_unit", "blank_param_float", "nested_bracket_units", "other_trailing_blank_lines"]
+MUTATIONS = ["none", "dup_curve", "blank_curve", "dup_param", "unit_point1in", "empty_values", "long_fields", "blank_param", "empty_step", "dup_null", "vers_1.0", "vers_2.1", "vers_3.0", "vers_1.2", "wrap_Yes", "wrap_yes", "wrap_No", "numeric_unit", "blank_param_float", "nested_bracket_units", "other_trailing_blank_lines", "date_text_curve", "no_rows"]
 
 
 def corpus():
@@ -60,6 +60,10 @@ def grid(tier):
         yield {"input": "gen", "seed": 5200 + k, "mutation": "nested_bracket_units", "opts": [0, 1, 2, 5][k]}
     for k in range(3):
         yield {"input": "gen", "seed": 5300 + k, "mutation": "other_trailing_blank_lines", "opts": [0, 1, 2][k]}
+    for k in range(4):
+        yield {"input": "gen", "seed": 5400 + k, "mutation": "date_text_curve", "opts": [2, 4, 0, 1][k], "wide": 8}
+    for k in range(4):
+        yield {"input": "gen", "seed": 5500 + k, "mutation": "no_rows", "opts": [0, 1, 2, 4][k]}
     for k, v in enumerate(["vers_1.0", "vers_1.2", "vers_2.1", "vers_3.0"] * 6):
         yield {"input": "gen", "seed": 2000 + k, "mutation": v, "opts": [0, 3, 5, 4][k % 4]}      # option sets that leave version=None
     k = 0
@@ -126,6 +130,14 @@ def mutate(lasio, las, mutation):
     elif mutation.startswith("vers_"):
         # every version number defaults.ORDER_DEFINITIONS tabulates, declared by the object itself (write(version=None) keeps it)
         las.version["VERS"].value = float(mutation[5:])
+    elif mutation == "date_text_curve":
+        # text samples of the form digits-hyphen-digits (dates): the reader's run-on-number repair leaves them alone only if every sampled line has a hyphen
+        n = len(las.curves[0].data) if len(las.curves) else 0
+        las.append_curve("DATE", np.array(["2018-05-%02d" % (i % 28 + 1) for i in range(n)]), descr="text curve of dates")
+    elif mutation == "no_rows":
+        # declared curves, no data rows (a header-only file as written by lasio itself)
+        for c in las.curves:
+            c.data = np.asarray(c.data)[:0]
     elif mutation == "other_trailing_blank_lines":
         las.other = (las.other or "remarks") + "\n\n\n"
     elif mutation == "nested_bracket_units":
@@ -235,9 +247,19 @@ def leading_dot_unit(las):
     return any(str(c.unit).startswith(".") for c in las.curves)
 
 
+def has_text_digit_hyphen_digit(las):
+    for c in las.curves:
+        d = np.asarray(c.data)
+        if d.dtype.kind in "USO" and any(re.search(r"\d-\d", str(x)) for x in d.tolist()):
+            return True
+    return False
+
+
 def classify_reread(las, text, exc):
     if has_text_with_blanks(las):
         return "reread-fails:text-curve-values-with-blanks-written-unquoted"
+    if has_text_digit_hyphen_digit(las) and re.search(r"(?im)^\s*WRAP\s*\.\s+YES", text):
+        return "reread-fails:wrapped-text-samples-digit-hyphen-digit"
     return "reread-raised:%s" % type(exc).__name__
 
 
@@ -263,6 +285,8 @@ def classify_drift(diffs, las, opts=None):
         return "drift:text-curve-values-with-blanks-written-unquoted"
     if blank_mnemonic_with_period(las):
         return "drift:blank-mnemonic-line-gains-a-period"
+    if opts is not None and opts.get("wrap") and has_text_digit_hyphen_digit(las):
+        return "drift:wrapped-text-samples-digit-hyphen-digit"
     first = diffs[0] if diffs else ""
     if leading_dot_unit(las) and any(re.search(r"unit|index_unit|original|mnemonic", d) for d in diffs):
         return "drift:leading-dot-unit-in-curves-migrates-to-mnemonic"
